@@ -41,35 +41,26 @@ MD = dp.models
 
 
 def _rep(make, value, n):
-    def run(rs):
-        m = make(rs)
-        return [m.randomise(value) for _ in range(n)]
-    return run
+    return (make, lambda m: [m.randomise(value) for _ in range(n)])
 
 
 def _rep0(make, n):
-    def run(rs):
-        m = make(rs)
-        return [m.randomise() for _ in range(n)]
-    return run
+    return (make, lambda m: [m.randomise() for _ in range(n)])
 
 
-def _vector(rs):
-    m = M.Vector(epsilon=1.0, function_sensitivity=1.0, dimension=4, random_state=rs)
+def _vector_draw(m):
     f = m.randomise(lambda x: 0.0)
     return [float(f(e)) for e in np.eye(4)]
 
 
-def _bingham(rs):
-    m = M.Bingham(epsilon=1.0, random_state=rs)
-    a = np.array([[2.0, 0.5, 0.1], [0.5, 1.0, 0.2], [0.1, 0.2, 0.5]])
-    return list(np.ravel([m.randomise(a) for _ in range(2)]))
+_BINGHAM_A = np.array([[2.0, 0.5, 0.1], [0.5, 1.0, 0.2], [0.1, 0.2, 0.5]])
 
 
 UL = [("a", "b", 1), ("a", "c", 1), ("b", "c", 1), ("a", "d", 1), ("b", "d", 1), ("c", "d", 1)]
-MECHS = {
+MECH_PARTS = {
     "Binary": _rep(lambda rs: M.Binary(epsilon=0.1, value0="a", value1="b", random_state=rs), "a", 256),
-    "Bingham": _bingham,
+    "Bingham": (lambda rs: M.Bingham(epsilon=1.0, random_state=rs),
+                lambda m: list(np.ravel([m.randomise(_BINGHAM_A) for _ in range(2)]))),
     "Exponential": _rep0(lambda rs: M.Exponential(epsilon=0.1, sensitivity=1, utility=[0.0] * 4, random_state=rs), 256),
     "PermuteAndFlip": _rep0(lambda rs: M.PermuteAndFlip(epsilon=0.1, sensitivity=1, utility=[0.0] * 4, random_state=rs), 256),
     "ExponentialCategorical": _rep(lambda rs: M.ExponentialCategorical(epsilon=0.1, utility_list=UL, random_state=rs), "a", 256),
@@ -95,8 +86,23 @@ MECHS = {
     "Snapping": _rep(lambda rs: M.Snapping(epsilon=0.1, sensitivity=1.0, lower=-1000.0, upper=1000.0, random_state=rs), 0.0, 256),
     "Staircase": _rep(lambda rs: M.Staircase(epsilon=1.0, sensitivity=1.0, random_state=rs), 0.0, 4),
     "Uniform": _rep(lambda rs: M.Uniform(delta=0.1, sensitivity=1.0, random_state=rs), 0.0, 4),
-    "Vector": _vector,
+    "Vector": (lambda rs: M.Vector(epsilon=1.0, function_sensitivity=1.0, dimension=4, random_state=rs), _vector_draw),
 }
+MECHS = {n: (lambda mk, dr: (lambda rs: dr(mk(rs))))(mk, dr) for n, (mk, dr) in MECH_PARTS.items()}
+
+
+def _pickle_roundtrip(m):
+    import pickle
+    return pickle.loads(pickle.dumps(m))
+
+
+def _copy_ways():
+    import copy
+    return {"copy()": ("shallow", lambda m: m.copy()), "copy.copy": ("shallow", copy.copy),
+            "copy.deepcopy": ("deep", copy.deepcopy), "pickle": ("deep", _pickle_roundtrip)}
+
+
+COPY_WAYS = _copy_ways()
 
 _DATA = {}
 
@@ -193,32 +199,30 @@ def _leaf_labels(tree, X=None, empty_only=False):
     return list(lab[leaf])
 
 
-def _forest(rs):
+def _forest_out(f):
     d = data()
-    f = MD.RandomForestClassifier(n_estimators=4, epsilon=0.05, bounds=B3, classes=[0, 1, 2, 3], max_depth=4,
-                                  random_state=rs, accountant=acc()).fit(d["Xm"], d["y3"])
+    f.fit(d["Xm"], d["y3"])
     out = []
     for e in f.estimators_:
         out += _leaf_labels(e)
     return out
 
 
-def _tree(rs):
+def _tree_out(t):
     d = data()
-    t = MD.DecisionTreeClassifier(epsilon=0.05, bounds=B3, classes=[0, 1, 2, 3], max_depth=5, random_state=rs,
-                                  accountant=acc()).fit(d["Xm"], d["y3"])
-    return _leaf_labels(t)
+    return _leaf_labels(t.fit(d["Xm"], d["y3"]))
 
 
-def _tree_empty(rs):
-    X = np.array([[0.1, 0.2, 0.3]])
-    t = MD.DecisionTreeClassifier(epsilon=1.0, bounds=B3, classes=[0, 1, 2, 3], max_depth=5, random_state=rs,
-                                  accountant=acc()).fit(X, np.array([1]))
-    return _leaf_labels(t, X, empty_only=True)
+_X1 = np.array([[0.1, 0.2, 0.3]])
 
 
-def _pca(rs):
-    p = MD.PCA(n_components=2, epsilon=2.0, bounds=B3, data_norm=2.5, random_state=rs, accountant=acc()).fit(data()["Xm"])
+def _tree_empty_out(t):
+    t.fit(_X1, np.array([1]))
+    return _leaf_labels(t, _X1, empty_only=True)
+
+
+def _pca_out(p):
+    p.fit(data()["Xm"])
     return flat(p.components_) + flat(p.explained_variance_) + flat(p.mean_)
 
 
@@ -228,32 +232,87 @@ def _cov(rs):
     return flat(v) + flat(u)
 
 
-MODELS = {
-    "GaussianNB": [("fit", lambda rs: flat(MD.GaussianNB(epsilon=1.0, bounds=B3, random_state=rs, accountant=acc())
-                                           .fit(data()["Xm"], data()["y3"]).theta_))],
-    "KMeans": [("fit", lambda rs: flat(MD.KMeans(n_clusters=2, epsilon=5.0, bounds=B3, random_state=rs, accountant=acc())
-                                       .fit(data()["Xm"]).cluster_centers_))],
-    "StandardScaler": [("fit", lambda rs: (lambda s: flat(s.mean_) + flat(s.var_))(
-        MD.StandardScaler(epsilon=1.0, bounds=B3, random_state=rs, accountant=acc()).fit(data()["Xm"])))],
-    "LinearRegression": [("fit", lambda rs: (lambda m: flat(m.coef_) + flat(m.intercept_))(
-        MD.LinearRegression(epsilon=2.0, bounds_X=B3, bounds_y=(-1.0, 1.0), random_state=rs, accountant=acc())
-        .fit(data()["Xm"], data()["yr"])))],
-    "LogisticRegression": [("binary", lambda rs: flat(MD.LogisticRegression(epsilon=2.0, data_norm=1.5, max_iter=30,
-                                                                            random_state=rs, accountant=acc())
-                                                      .fit(data()["Xm"], data()["y2"]).coef_)),
-                           ("ovr", lambda rs: flat(MD.LogisticRegression(epsilon=2.0, data_norm=1.5, max_iter=30,
-                                                                         random_state=rs, accountant=acc())
-                                                   .fit(data()["Xm"], data()["y3"]).coef_))],
-    "PCA": [("fit", _pca)],
-    "RandomForestClassifier": [("fit", _forest)],
-    "DecisionTreeClassifier": [("fit", _tree), ("empty-leaf-label", _tree_empty)],
-    "covariance_eig": [("full", _cov)],
+def _scaler_out(s_):
+    s_.fit(data()["Xm"])
+    return flat(s_.mean_) + flat(s_.var_)
+
+
+def _linreg_out(m):
+    m.fit(data()["Xm"], data()["yr"])
+    return flat(m.coef_) + flat(m.intercept_)
+
+
+# name -> [(variant, make(random_state) -> unfitted estimator, fit_and_read(estimator) -> outputs)]
+MODEL_PARTS = {
+    "GaussianNB": [("fit", lambda rs: MD.GaussianNB(epsilon=1.0, bounds=B3, random_state=rs, accountant=acc()),
+                    lambda e: flat(e.fit(data()["Xm"], data()["y3"]).theta_))],
+    "KMeans": [("fit", lambda rs: MD.KMeans(n_clusters=2, epsilon=5.0, bounds=B3, random_state=rs, accountant=acc()),
+                lambda e: flat(e.fit(data()["Xm"]).cluster_centers_))],
+    "StandardScaler": [("fit", lambda rs: MD.StandardScaler(epsilon=1.0, bounds=B3, random_state=rs, accountant=acc()),
+                        _scaler_out)],
+    "LinearRegression": [("fit", lambda rs: MD.LinearRegression(epsilon=2.0, bounds_X=B3, bounds_y=(-1.0, 1.0),
+                                                                random_state=rs, accountant=acc()), _linreg_out)],
+    "LogisticRegression": [("binary", lambda rs: MD.LogisticRegression(epsilon=2.0, data_norm=1.5, max_iter=30,
+                                                                       random_state=rs, accountant=acc()),
+                            lambda e: flat(e.fit(data()["Xm"], data()["y2"]).coef_)),
+                           ("ovr", lambda rs: MD.LogisticRegression(epsilon=2.0, data_norm=1.5, max_iter=30,
+                                                                    random_state=rs, accountant=acc()),
+                            lambda e: flat(e.fit(data()["Xm"], data()["y3"]).coef_))],
+    "PCA": [("fit", lambda rs: MD.PCA(n_components=2, epsilon=2.0, bounds=B3, data_norm=2.5, random_state=rs,
+                                      accountant=acc()), _pca_out)],
+    "RandomForestClassifier": [("fit", lambda rs: MD.RandomForestClassifier(
+        n_estimators=4, epsilon=0.05, bounds=B3, classes=[0, 1, 2, 3], max_depth=4, random_state=rs, accountant=acc()),
+        _forest_out)],
+    "DecisionTreeClassifier": [("fit", lambda rs: MD.DecisionTreeClassifier(
+        epsilon=0.05, bounds=B3, classes=[0, 1, 2, 3], max_depth=5, random_state=rs, accountant=acc()), _tree_out),
+        ("empty-leaf-label", lambda rs: MD.DecisionTreeClassifier(
+            epsilon=1.0, bounds=B3, classes=[0, 1, 2, 3], max_depth=5, random_state=rs, accountant=acc()),
+         _tree_empty_out)],
 }
+
+
+def _sk_clone(e):
+    from sklearn.base import clone
+    return clone(e)
+
+
+def _deepcopy(e):
+    import copy
+    return copy.deepcopy(e)
+
+
+MODEL_WAYS = {"direct": lambda e: e, "clone": _sk_clone, "deepcopy": _deepcopy}
+MODELS = {}
+for _n, _vs in MODEL_PARTS.items():
+    MODELS[_n] = []
+    for _v, _mk, _out in _vs:
+        for _w, _wf in MODEL_WAYS.items():
+            MODELS[_n].append((_v if _w == "direct" else f"{_v}|{_w}",
+                               (lambda mk, out, wf: (lambda rs: out(wf(mk(rs)))))(_mk, _out, _wf)))
+MODELS["covariance_eig"] = [("full", _cov)]
+
+
+class _NoInstance(Exception):
+    pass
+
+
+def _via_copy(name, way):
+    mk, dr = MECH_PARTS[name]
+
+    def run(rs):
+        m = mk(rs)
+        try:
+            c = COPY_WAYS[way][1](m)
+        except Exception:  # noqa - no instance obtained (deep copy of a SystemRandom): nothing to draw from
+            return []
+        return dr(c)
+    return run
 
 
 def all_entries():
     """(entry, variant, runner, group)"""
     out = [(n, "direct", f, "mechanism") for n, f in MECHS.items()]
+    out += [(n, w, _via_copy(n, w), "mechanism") for n in MECH_PARTS for w in COPY_WAYS]
     for n, vs in TOOLS.items():
         out += [(n, v, f, "tool") for v, f in vs]
     for n, vs in MODELS.items():
@@ -316,8 +375,8 @@ def observe(runner, kind):
             with InitRecorder() as rec:
                 try:
                     runner(make_seed(kind))
-                except (ValueError, TypeError) as e:
-                    if not rec.instances:
+                except (ValueError, TypeError, NotImplementedError) as e:   # NotImplementedError: deep copy of an
+                    if not rec.instances:                                       # estimator holding a SystemRandom
                         return ("error", type(e).__name__)
                     raise
         return ("ok", sorted({f"{type(o).__name__}:{src_of(o._rng)}" for o in rec.instances}))
@@ -367,7 +426,13 @@ def correspondence(ctx):
     for n in names:
         variants = [e for e in entries if e[0] == n]
         for k in SEED_KINDS:
-            want = model_sites(plan[(n, k)])
+            # clone / deepcopy of an estimator DUPLICATES a RandomState passed as random_state: numpy's global singleton
+            # becomes an ordinary caller-owned RandomState in the copy
+            def kind_for(v):
+                return "randomState" if (k == "globalSingleton" and ("|clone" in v or "|deepcopy" in v)) else k
+            want = set()
+            for (_, v, _, _) in variants:
+                want |= model_sites(plan[(n, kind_for(v))])
             want_err = bool(want) and all(w.endswith(":error") for w in want)
             seen = set()
             err = None
@@ -397,9 +462,57 @@ def correspondence(ctx):
                 ctx.disagree("rng-provenance", {"entry": n, "random_state": k}, sorted(want), err or sorted(seen))
             else:
                 ctx.trace_ok()
+    copies(ctx)
     ctx.sample({"entry": "RandomForestClassifier", "random_state": "none",
                 "model_plan": plan[("RandomForestClassifier", "none")]})
     ctx.sample({"entry": "median", "random_state": "none", "model_plan": plan[("median", "none")]})
+
+
+def obtain_copy(name, way, kind):
+    """-> ('error', exc name) | ('ok', copy, original)"""
+    mk, _ = MECH_PARTS[name]
+    try:
+        with warnings.catch_warnings():
+            warnings.simplefilter("ignore")
+            m = mk(make_seed(kind))
+    except (ValueError, TypeError) as e:
+        return ("ctor-error", type(e).__name__)
+    try:
+        c = COPY_WAYS[way][1](m)
+    except Exception as e:  # noqa - e.g. NotImplementedError: a SystemRandom has no state to pickle
+        return ("error", type(e).__name__)
+    return ("ok", c, m)
+
+
+def copies(ctx):
+    """every public way of obtaining a mechanism instance other than the constructor: the class of the copy's `_rng`"""
+    lines, cases = [], []
+    for name in MECH_PARTS:
+        for way, (mw, _) in COPY_WAYS.items():
+            for k in SEED_KINDS:
+                lines.append(f"copy {mw} {name} {k}")
+                cases.append((name, way, k))
+    outs = leanio.run_driver("Rng", lines)
+    for (name, way, k), want in zip(cases, outs):
+        r = obtain_copy(name, way, k)
+        ctx.case(("copy", name, way, k))
+        if r[0] == "ctor-error":
+            got = "error"
+        elif r[0] == "error":
+            got = "error"
+        else:
+            got = src_of(r[1]._rng)
+            if k == "none":
+                ok = got == "osCsprng" or (got == "freshGenerator" and name in ("Staircase", "Bingham"))
+                if not ok:
+                    ctx.violation(f"C14:{name}:{way}:rng-not-os-csprng",
+                                  f"{name}(random_state=None) obtained through {way} holds a {got} generator "
+                                  f"(not secrets.SystemRandom)",
+                                  {"kind": "copy-rng-class", "entry": name, "way": way})
+        if got != want:
+            ctx.disagree("rng-provenance.copy", {"mechanism": name, "way": way, "random_state": k}, want, got)
+        else:
+            ctx.trace_ok()
 
 
 # ------------------------------------------------------------------------------------------------ black box
@@ -426,6 +539,8 @@ def sig_for(entry, variant, what):
         return "C14:DecisionTreeClassifier:empty-leaf-label:global-numpy"
     if entry == "quantile" and variant == "within-interval-uniform":
         return f"C14:quantile:within-interval-uniform:{what}"
+    if variant in COPY_WAYS or variant.endswith("|clone") or variant.endswith("|deepcopy"):
+        return f"C14:{entry}:{variant.split('|')[-1]}:{what}"
     return f"C14:{entry}:{what}"
 
 
@@ -498,6 +613,12 @@ def replay(ctx, data):
             if not (src == "osCsprng" or (src == "freshGenerator" and mech in ("Staircase", "Bingham"))):
                 return True
         return False
+    if d.get("kind") == "copy-rng-class":
+        r = obtain_copy(d["entry"], d["way"], "none")
+        if r[0] != "ok":
+            return False
+        g = src_of(r[1]._rng)
+        return not (g == "osCsprng" or (g == "freshGenerator" and d["entry"] in ("Staircase", "Bingham")))
     if d.get("kind") == "crs":
         return src_of(dp.utils.check_random_state(make_seed(d["seed"]), True)) != "osCsprng"
     return False
